@@ -506,7 +506,13 @@ impl ObjFileFormat for TextFormat {
                 ".DEBUG" => if !rest.is_empty() {
                     let split_pos = rest.iter().position(|l| l.starts_with('='))?;
                     if !rest.last()?.starts_with('=') { return None; }
-                    let (label_src, [_, line_src @ .., _]) = rest.split_at(split_pos) else { unreachable!("divider should be present") };
+                    // After the label table comes a divider, then optionally the line table closed by
+                    // a second divider (the writer omits both when there are no debug symbols).
+                    let (label_src, after) = rest.split_at(split_pos);
+                    let line_src: &[&str] = match after {
+                        [_, line_src @ .., _] => line_src,
+                        _ => &[],
+                    };
 
                     let label_table = parse_table(label_src, ["LABEL", "INDEX"], |[label, index_str], _| {
                         let index = index_str.parse().ok()?;
